@@ -432,6 +432,32 @@ pub fn run(env: &Env) -> PropRun {
             &j,
         ));
     }
+    // finals beyond Latin-1: every code point U+00A0..=U+FFFF as the final of ESC, of ESC with
+    // an intermediate and of CSI is an ordinary unimplemented final (a parser that looks at
+    // the low byte only would run IND / NEL / HTS / RI, a cursor move, an erase ...)
+    {
+        let finals: Vec<char> = (0xA0u32..=0xFFFF).filter_map(char::from_u32).collect();
+        let nf = finals.len();
+        let st = "ab\r\ncd\x1b[?6h\x1b[2;3r\x1b[4h\x1b[1;31m\x1b(0\x1b[?25l\x1b[?7l\x1b7\x1b[2;2H";
+        parts.push(run_part(
+            env,
+            "enum-wide-finals",
+            nf * 3,
+            true,
+            "every code point U+00A0..=U+FFFF as the final of ESC, ESC SP and CSI 2, from a state with margins, origin and insert mode, a pen, a charset, a hidden cursor and a saved context",
+            &|i| {
+                let f = finals[i % nf];
+                let mut c = Case::new(6, 4, None).feed(st);
+                c.tail = vec![match i / nf {
+                    0 => format!("\x1b{f}"),
+                    1 => format!("\x1b {f}"),
+                    _ => format!("\x1b[2{f}"),
+                }];
+                Some(c)
+            },
+            &j,
+        ));
+    }
     parts.push(random_part(env, "random-items", env.tier.scale(150_000, 30), &gen_case, &j));
     parts.push(random_part(env, "long-payloads", env.tier.scale(60_000, 30), &gen_long_payload, &j));
     PropRun {
